@@ -126,6 +126,11 @@ func (k Keeper) Open(ctx sdk.Context, msg *types.MsgOpen) (*types.MsgOpenRespons
 		if !found {
 			return nil, errorsmod.Wrap(types.ErrPoolDoesNotExist, fmt.Sprintf("poolId: %d", poolId))
 		}
+		// so has the amm pool: the collateral went into its reserve
+		ammPool, err = k.GetAmmPool(ctx, poolId)
+		if err != nil {
+			return nil, errorsmod.Wrapf(err, "amm pool not found for pool %d", poolId)
+		}
 
 		err = k.hooks.AfterPerpetualPositionOpen(ctx, ammPool, pool, creator, params.EnableTakeProfitCustodyLiabilities)
 		if err != nil {
